@@ -48,4 +48,18 @@ BREAKS = [
     dict(name="c16-ssk-ro-branch-guarded-by-writeable", prop="C16", file="uri.py",
          old="        elif s.startswith(b'URI:SSK-RO:'):\n            if can_be_mutable:",
          new="        elif s.startswith(b'URI:SSK-RO:'):\n            if can_be_writeable:"),
+    # twins of seeded C16-5 / C16-6 / C15-5
+    dict(name="c16-prohibitednode-readcap-is-cap", prop="C16", file="blacklist.py",
+         old="        return self.wrapped_node.get_readcap()",
+         new="        return self.wrapped_node.get_cap()"),
+    dict(name="c16-adder-never-diminishes-on-overwrite", prop="C16", file="dirnode.py",
+         old="                metadata = children[name][1].copy()\n\n            metadata = update_metadata(metadata, new_metadata, now)\n"
+             "            if self.create_readonly_node and metadata.get('no-write', False):",
+         new="                metadata = children[name][1].copy()\n\n            metadata = update_metadata(metadata, new_metadata, now)\n"
+             "            if self.create_readonly_node and metadata.get('no-write', False) and name not in children:"),
+    dict(name="c16-metadatasetter-does-not-diminish", prop="C16", file="dirnode.py",
+         old="        metadata = update_metadata(children[name][1].copy(), self.metadata, now)\n"
+             "        if self.create_readonly_node and metadata.get('no-write', False):",
+         new="        metadata = update_metadata(children[name][1].copy(), self.metadata, now)\n"
+             "        if False:"),
 ]
